@@ -386,6 +386,13 @@ class LexicalEnum(Lexical, LangCommonEnum, lexcopy=True):
     strings: frozenset[str]
     "Name, label, or other strings unique to a member."
 
+    def __setattr__(self, name, value, /):
+        # Members are read-only once the package is initialized. (The copy of
+        # Lexical.__setattr__ made by `lexcopy` never raises.)
+        if getattr(LexicalEnum, '_readonly', False):
+            raise Emsg.ReadOnly(self, name)
+        super().__setattr__(name, value)
+
     def __eq__(self, other):
         'Allow equality with the string name.'
         if self is other:
